@@ -1,5 +1,5 @@
-CONSTANTS W = 64  MaxFile = 10  MaxDepth = 3  Wrapping = FALSE
+CONSTANTS W = 32  MaxFile = 8  MaxDepth = 3  MaxVar = 3  Wrapping = FALSE  EndOf = "checked_add"
 INIT Init
 NEXT Next
-INVARIANTS Monotone InBounds Linear Terminates
+INVARIANTS Monotone InBounds OverlongIsError InLimit Linear Terminates
 CHECK_DEADLOCK FALSE
